@@ -6,6 +6,14 @@ open Anysystem
 
 def fuelDefault : Nat := 100000000
 
+/-- the checker's network settings, as the harness renders them from `McState::network` -/
+def showNet (n : McNet) : String :=
+  let b (x : Bool) : String := if x then "1" else "0"
+  let nodes (l : List Nat) : String := showList (sortStrs (l.map fun x => s!"n{x}"))
+  let links := showList (sortStrs (n.disabledLinks.map fun (a, b) => s!"n{a}>n{b}"))
+  s!"drop={b n.dropPos} dupl={b n.duplNonzero} corrupt={b n.corruptPos} din={nodes n.dropIncoming} dout={nodes n.dropOutgoing} links={links} maxd={unitsOf n.maxDelay}"
+
+
 /-- one `run`/`runfrom` line -/
 def doRun (st : McSt) (ws : List String) (fromStates : Bool) : McSt × List String :=
   if st.dead then ({ st with runs := st.runs + 1 }, [s!"run {st.runs} skipped"]) else
@@ -72,6 +80,7 @@ def doRun (st : McSt) (ws : List String) (fromStates : Bool) : McSt × List Stri
   let isOk := res == "ok"
   let col := if isOk then col else []
   let lines := [s!"{hdr} result={res} evaluated={ev.length} collected={col.length}"]
+    ++ (match ev.head? with | some s0 => [s!"NETS {showNet s0.net}"] | none => [])
     ++ ev.map (fun s => "E " ++ showState s ++ (if st.preds then " " ++ predBattery s else ""))
     ++ (col.map (fun s => "C " ++ showState s ++ " T" ++ showTrace s.trace))
     ++ (match errSt with
